@@ -219,19 +219,24 @@ func (h *c02H) partStates() []c02PartState {
 type c02FinalState struct {
 	Name string
 	Data []byte
+	Dir  bool
 }
 
 var c02FinalStates = []c02FinalState{
-	{"absent", nil},
-	{"valid", c02Obj},
-	{"corrupt", []byte("0123456789aX")},
+	{Name: "absent"},
+	{Name: "valid", Data: c02Obj},
+	{Name: "corrupt", Data: []byte("0123456789aX")},
+	// something that is not a file occupies the final location (makes the final rename fail on every platform)
+	{Name: "directory", Dir: true},
 }
 
 func (c *c02Case) install(p c02PartState, f c02FinalState) {
 	if p.Data != nil {
 		must(os.WriteFile(c.part, p.Data, 0644))
 	}
-	if f.Data != nil {
+	if f.Dir {
+		must(os.MkdirAll(c.final, 0755))
+	} else if f.Data != nil {
 		must(os.WriteFile(c.final, f.Data, 0644))
 	}
 }
@@ -252,6 +257,11 @@ func c02Snapshot(path string) c02Snap {
 	s := c02Snap{Exists: true, Reg: st.Mode().IsRegular()}
 	if s.Reg {
 		s.Data, _ = os.ReadFile(path)
+	} else if st.IsDir() {
+		ents, _ := os.ReadDir(path)
+		for _, e := range ents {
+			s.Data = append(s.Data, (e.Name() + "/")...)
+		}
 	}
 	return s
 }
@@ -261,7 +271,7 @@ func (s c02Snap) class() string {
 	case !s.Exists:
 		return "absent"
 	case !s.Reg:
-		return "not-a-file"
+		return "directory"
 	case c02Sum(s.Data) == c02Oid:
 		return "valid"
 	default:
@@ -418,11 +428,14 @@ func c02Judge(adapter, class string, d c02Drive, before, after c02Snap) []vx.Vio
 		vs = append(vs, vx.Violation{Fingerprint: "C02:panic:" + adapter, Msg: "code under test panicked during the download: " + firstLineOf(d.Panic), Detail: d.Panic})
 		return vs
 	}
+	if before.Exists && !before.Reg {
+		class = "final-is-directory"
+	}
 	if d.Reported == "ok" {
 		switch {
 		case !after.Exists || !after.Reg:
 			vs = append(vs, vx.Violation{Fingerprint: "C02:success-without-file:" + adapter + ":" + class,
-				Msg: fmt.Sprintf("download of %s reported success but the final location holds %s", c02Oid[:8], after.class())})
+				Msg: fmt.Sprintf("download of %s reported success but the final location holds %s (before the attempt: %s); no file with the object's SHA-256 is in local storage", c02Oid[:8], after.class(), before.class())})
 		case c02Sum(after.Data) != c02Oid:
 			vs = append(vs, vx.Violation{Fingerprint: "C02:success-wrong-content:" + adapter + ":" + class,
 				Msg: fmt.Sprintf("download reported success but the file at the final location has SHA-256 %s (content %q, %d bytes), want %s (final location before the attempt: %s)",
